@@ -104,6 +104,11 @@ func c09BudgetDER(c *Ctx) c09Fam {
 	fail400 := add("fails-deep", "f400.der", c09Nested(400, bad))
 	fail700 := add("fails-deep", "f700.der", c09Nested(700, bad))
 	fail2 := add("fails-deep", "f2.der", c09Nested(2, bad))
+	// cut in the middle: the outermost length already exceeds the input
+	deep800 := c09Nested(800, []byte{0x05, 0x00})
+	trunc := add("truncated-deep", "t800.der", deep800[:len(deep800)/2])
+	// cut inside: 600 complete levels around 200 levels that lost their tail
+	truncIn := add("truncated-deep-inside", "t600.der", c09Nested(600, c09Nested(200, []byte{0x05, 0x00})[:300]))
 	// many elements
 	n := 100000
 	many := add("many-elements", "e100000.der", c09TLV(0x30, bytes.Repeat([]byte{0x05, 0x00}, n)))
@@ -117,6 +122,7 @@ func c09BudgetDER(c *Ctx) c09Fam {
 		[]int{small, plain, over, small, plain, strs},
 		[]int{plain, wayOver, plain, at, near, plain},
 		[]int{plain, fail400, plain, fail400, small, fail700, plain, small, fail2, strs},
+		[]int{plain, trunc, plain, truncIn, small, truncIn, strs, trunc, plain},
 		[]int{small, huge4, small, huge8, plain, hugeIn, plain, indef, strs})
 	// 11 x 10^5 elements: more than 2^20 in total
 	s := []int{plain, many, plain}
